@@ -1228,6 +1228,10 @@ class _Frame:
         ce, owner = self.I.repo.class_attr(obj.cls, name)
         if ce is not None:
             return self.I.eval_class_attr(owner, ce)
+        if name != attr and attr.startswith("__") and attr[2:] in obj.attrs and self.I.repo.lookup_method(obj.cls, attr[2:]) is not None and self.I.repo.lookup_method(obj.cls, attr[2:]).is_property():
+            # an analysis stand-in that supplies the public view `x` of the private field `__x` (the rule placed the attribute
+            # where a property of that name exists): the private read takes that value
+            return obj.attrs[attr[2:]]
         if getattr(self.I, "attr_try_depth", 0) > 0 and name.startswith("_") and "__" in name[1:] and name != attr:
             raise XRaise("AttributeError", f"'{obj.cls.name}' object has no attribute '{name}'")
         raise self.bad(f"attribute {obj.cls.name}.{attr} is not modelled", n)
@@ -1322,6 +1326,14 @@ class _Frame:
             return self.I.call_function(f, args, kwargs, self_obj=fn)
         if isinstance(fn, _NpAttr):
             return self.np_call(fn.path, args, kwargs, n)
+        if isinstance(fn, Opaque) and fn.tag.startswith("import:itertools."):
+            import itertools as _itertools
+
+            nm = fn.tag.split(".")[-1]
+            if nm in ("product", "chain", "combinations", "permutations", "accumulate", "repeat", "zip_longest", "islice", "count", "starmap", "pairwise", "combinations_with_replacement"):
+                if nm in ("accumulate", "starmap") and len(args) > 1 and not callable(args[1] if nm == "accumulate" else args[0]):
+                    pass
+                return list(getattr(_itertools, nm)(*args, **kwargs)) if nm not in ("count", "repeat") or (nm == "repeat" and len(args) > 1) else getattr(_itertools, nm)(*args, **kwargs)
         if isinstance(fn, Opaque) and fn.tag in ("import:copy.copy", "import:copy.deepcopy") and len(args) == 1:
             return _py_copy(args[0], deep=fn.tag.endswith("deepcopy"))
         if isinstance(fn, ClassInfo):
@@ -1993,7 +2005,7 @@ _NP_FUNCS = {
     "array_equal": lambda a, b: (lambda A, B: A.shape == B.shape and all(exact(x) == exact(y) for x, y in zip(A.data, B.data)))(XArray.from_nested(a), XArray.from_nested(b)),
     "floor": lambda a: _np_round_dir(a, -1),
     "ceil": lambda a: _np_round_dir(a, +1),
-    "meshgrid": lambda x, y, indexing="xy": _np_meshgrid(x, y, indexing),
+    "meshgrid": lambda *xs, indexing="xy", **kw: _np_meshgrid_n(xs, indexing),
     "ravel_multi_index": lambda multi, dims: _np_ravel_multi_index(multi, dims),
     "cos": lambda a: _np_trig(a, "cos"),
     "sin": lambda a: _np_trig(a, "sin"),
@@ -2607,3 +2619,468 @@ def _np_linalg_solve(a, b):
 
 _NP_FUNCS.setdefault("linalg.inv", _np_linalg_inv)
 _NP_FUNCS.setdefault("linalg.solve", _np_linalg_solve)
+
+
+def _np_matmul(a, b, **kw):
+    from .xarray import matmul as _mm
+
+    a, b = XArray.from_nested(a), XArray.from_nested(b)
+    try:
+        return _mm(a, b)
+    except XArrayError as e:
+        if "shape mismatch" in str(e):
+            raise XRaise("ValueError", f"matmul: dimension mismatch ({e})")
+        raise
+
+
+_NP_FUNCS.setdefault("matmul", _np_matmul)
+
+
+# ---- a second batch of numpy functions (added after behaviour-preserving rewrites by independent agents used them) ----------
+def _xa(a):
+    return a if isinstance(a, XArray) else XArray.from_nested(a)
+
+
+def _np_logical(op):
+    def f(a, b=None, **kw):
+        a = _xa(a)
+        if b is None:
+            return XArray(a.shape, [not bool(_truthy(v)) for v in a.data])
+        b = _xa(b)
+        return XArray._binop(a, b, lambda x, y: op(bool(_truthy(x)), bool(_truthy(y))))
+
+    return f
+
+
+def _truthy(v):
+    v = exact(v)
+    if isinstance(v, bool):
+        return v
+    if isinstance(v, (int, Fraction)):
+        return v != 0
+    if isinstance(v, (Poly, Rat, MQ)):
+        z = v.is_zero()
+        if not z and isinstance(v, (Poly, Rat)) and not (isinstance(v, Poly) and v.is_const()):
+            raise XArrayError("truth value of a symbolic entry")
+        return not z
+    return bool(v)
+
+
+def _np_expand_dims(a, axis):
+    a = _xa(a)
+    axes = sorted((ax if ax >= 0 else ax + a.ndim + 1) for ax in (axis if isinstance(axis, (tuple, list)) else (axis,)))
+    sh = list(a.shape)
+    for ax in axes:
+        sh.insert(int(ax), 1)
+    return a.reshape(*sh)
+
+
+def _np_squeeze(a, axis=None):
+    a = _xa(a)
+    if axis is None:
+        sh = [s for s in a.shape if s != 1]
+    else:
+        axes = {int(ax) % a.ndim for ax in (axis if isinstance(axis, (tuple, list)) else (axis,))}
+        for ax in axes:
+            if a.shape[ax] != 1:
+                raise XRaise("ValueError", "cannot select an axis to squeeze out which has size not equal to one")
+        sh = [s for i, s in enumerate(a.shape) if i not in axes]
+    return a.reshape(*sh) if sh else a.data[0]
+
+
+def _np_hstack(tup, **kw):
+    arrs = [_xa(t) for t in tup]
+    arrs = [a.reshape(1) if a.ndim == 0 else a for a in arrs]
+    return _NP_FUNCS["concatenate"](arrs, axis=0 if arrs[0].ndim == 1 else 1)
+
+
+def _np_column_stack(tup):
+    arrs = [_xa(t) for t in tup]
+    arrs = [a.reshape(-1, 1) if a.ndim == 1 else a for a in arrs]
+    return _NP_FUNCS["concatenate"](arrs, axis=1)
+
+
+def _np_dstack(tup):
+    arrs = []
+    for t in tup:
+        a = _xa(t)
+        if a.ndim == 1:
+            a = a.reshape(1, -1, 1)
+        elif a.ndim == 2:
+            a = a.reshape(a.shape[0], a.shape[1], 1)
+        arrs.append(a)
+    return _NP_FUNCS["concatenate"](arrs, axis=2)
+
+
+def _np_take(a, indices, axis=None, **kw):
+    a = _xa(a)
+    if axis is None:
+        return a.ravel()[indices if not isinstance(indices, list) else _xa(indices)]
+    ax = int(axis) % a.ndim
+    key = tuple([slice(None)] * ax + [indices if not isinstance(indices, list) else _xa(indices)])
+    return a[key]
+
+
+def _np_take_along_axis(a, indices, axis):
+    import itertools as _it
+
+    a, idx = _xa(a), _xa(indices)
+    ax = int(axis) % a.ndim
+    if idx.ndim != a.ndim:
+        raise XRaise("ValueError", "`indices` and `arr` must have the same number of dimensions")
+    lead = tuple(max(s, t) if k != ax else t for k, (s, t) in enumerate(zip(a.shape, idx.shape)))
+    out = []
+    for pos in _it.product(*[range(n) for n in lead]):
+        ip = tuple(p if idx.shape[k] != 1 else 0 for k, p in enumerate(pos))
+        j = int(exact(idx[ip]))
+        ap = tuple((p if a.shape[k] != 1 else 0) if k != ax else j for k, p in enumerate(pos))
+        out.append(a[ap])
+    return XArray(lead, out)
+
+
+def _np_union1d(a, b):
+    vals = sorted(set(exact(v) for v in _xa(a).ravel().data) | set(exact(v) for v in _xa(b).ravel().data))
+    return XArray((len(vals),), vals, _xa(a).dtype)
+
+
+def _np_prod(a, axis=None, **kw):
+    a = _xa(a)
+    if axis is None:
+        tot = 1
+        for v in a.data:
+            tot = tot * v
+        return tot
+    ax = int(axis) % a.ndim
+    moved = a.transpose(*([i for i in range(a.ndim) if i != ax] + [ax]))
+    n = a.shape[ax]
+    out = []
+    for k in range(0, len(moved.data), n):
+        tot = 1
+        for v in moved.ravel().data[k : k + n] if moved.order is not None else moved.data[k : k + n]:
+            tot = tot * v
+        out.append(tot)
+    return XArray(moved.shape[:-1], out)
+
+
+def _np_tensordot(a, b, axes=2):
+    a, b = _xa(a), _xa(b)
+    if isinstance(axes, int):
+        ax_a, ax_b = list(range(a.ndim - axes, a.ndim)), list(range(axes))
+    else:
+        ax_a, ax_b = axes
+        ax_a = [ax_a] if isinstance(ax_a, int) else list(ax_a)
+        ax_b = [ax_b] if isinstance(ax_b, int) else list(ax_b)
+    ax_a = [x % a.ndim for x in ax_a]
+    ax_b = [x % b.ndim for x in ax_b]
+    letters = "abcdefghijklmnopqrstuvwxyz"
+    la = list(letters[: a.ndim])
+    lb = list(letters[a.ndim : a.ndim + b.ndim])
+    for x, y in zip(ax_a, ax_b):
+        lb[y] = la[x]
+    out = [c for i, c in enumerate(la) if i not in ax_a] + [c for i, c in enumerate(lb) if i not in ax_b]
+    return _NP_FUNCS["einsum"]("".join(la) + "," + "".join(lb) + "->" + "".join(out), a, b)
+
+
+def _np_linspace(start, stop, num=50, endpoint=True, **kw):
+    start, stop, num = exact(start), exact(stop), int(num)
+    div = (num - 1) if endpoint else num
+    return XArray((num,), [start + (stop - start) * Fraction(k, div) if div else start for k in range(num)])
+
+
+def _np_atleast(n):
+    def f(a):
+        a = _xa(a)
+        while a.ndim < n:
+            a = a.reshape(*((1,) + a.shape)) if n < 3 or a.ndim != 2 else a.reshape(*(a.shape + (1,)))
+        return a
+
+    return f
+
+
+def _np_append(arr, values, axis=None):
+    if axis is None:
+        return _NP_FUNCS["concatenate"]([_xa(arr).ravel(), _xa(values).ravel()])
+    return _NP_FUNCS["concatenate"]([_xa(arr), _xa(values)], axis=axis)
+
+
+def _np_flip(a, axis=None):
+    a = _xa(a)
+    axes = range(a.ndim) if axis is None else ([int(axis) % a.ndim] if not isinstance(axis, (tuple, list)) else [int(x) % a.ndim for x in axis])
+    key = tuple(slice(None, None, -1) if i in axes else slice(None) for i in range(a.ndim))
+    return a[key]
+
+
+def _np_nonzero(a):
+    a = _xa(a)
+    import itertools as _it
+
+    pos = [p for p, v in zip(_it.product(*[range(n) for n in a.shape]), a.ravel().data if a.order is not None else a.data) if _truthy(v)]
+    return tuple(XArray((len(pos),), [p[k] for p in pos], "i") for k in range(a.ndim))
+
+
+def _np_argwhere(a):
+    nz = _np_nonzero(a)
+    n = nz[0].shape[0] if nz else 0
+    return XArray((n, len(nz)), [nz[k].data[i] for i in range(n) for k in range(len(nz))], "i")
+
+
+def _np_like(fill):
+    def f(a, *args, dtype=None, **kw):
+        a = _xa(a)
+        v = fill if fill is not None else (args[0] if args else kw.get("fill_value"))
+        return XArray(a.shape, [v] * a.size, dtype if dtype is not None else a.dtype)
+
+    return f
+
+
+def _np_diagonal(a, offset=0, axis1=0, axis2=1):
+    a = _xa(a)
+    if a.ndim != 2 or axis1 != 0 or axis2 != 1:
+        raise Uninterpretable("np.diagonal beyond a 2-D array is not modelled")
+    n = min(a.shape[0], a.shape[1] - offset) if offset >= 0 else min(a.shape[0] + offset, a.shape[1])
+    return XArray((max(n, 0),), [a[i - min(offset, 0), i + max(offset, 0)] for i in range(max(n, 0))])
+
+
+def _np_tri(upper):
+    def f(m, k=0):
+        m = _xa(m)
+        r, c = m.shape[-2:]
+        out = m.copy()
+        import itertools as _it
+
+        for lead in _it.product(*[range(n) for n in m.shape[:-2]]):
+            for i in range(r):
+                for j in range(c):
+                    if (j - i < k) if upper else (j - i > k):
+                        out[lead + (i, j)] = Fraction(0)
+        return out
+
+    return f
+
+
+def _np_ix(*seqs):
+    n = len(seqs)
+    out = []
+    for k, s in enumerate(seqs):
+        a = _xa(s)
+        out.append(a.reshape(*[(a.shape[0] if i == k else 1) for i in range(n)]))
+    return tuple(out)
+
+
+def _np_unravel_index(indices, shape):
+    shape = tuple(int(s) for s in shape)
+    scalar = not isinstance(indices, (XArray, list, tuple))
+    idx = [int(exact(v)) for v in (_xa(indices).ravel().data if not scalar else [indices])]
+    cols = []
+    for s in reversed(shape):
+        cols.append([i % s for i in idx])
+        idx = [i // s for i in idx]
+    cols.reverse()
+    if scalar:
+        return tuple(c[0] for c in cols)
+    return tuple(XArray((len(c),), c, "i") for c in cols)
+
+
+def _np_split(ary, indices_or_sections, axis=0):
+    a = _xa(ary)
+    ax = int(axis) % a.ndim
+    n = a.shape[ax]
+    if isinstance(indices_or_sections, (int, Fraction)):
+        k = int(indices_or_sections)
+        if n % k:
+            raise XRaise("ValueError", "array split does not result in an equal division")
+        cuts = [n // k * i for i in range(1, k)]
+    else:
+        cuts = [int(exact(v)) for v in _xa(indices_or_sections).data]
+    out, lo = [], 0
+    for c in cuts + [n]:
+        key = tuple(slice(lo, c) if i == ax else slice(None) for i in range(a.ndim))
+        out.append(a[key])
+        lo = c
+    return out
+
+
+def _np_round(a, decimals=0, **kw):
+    def rd(v):
+        v = exact(v)
+        if isinstance(v, (int, Fraction)):
+            return Fraction(round(Fraction(v) * 10**decimals), 10**decimals)
+        raise XArrayError("np.round of a symbolic entry")
+
+    if isinstance(a, (XArray, list, tuple)):
+        a = _xa(a)
+        return XArray(a.shape, [rd(v) for v in a.data])
+    return rd(a)
+
+
+def _np_elementwise(f):
+    def g(a, *rest, **kw):
+        if isinstance(a, (XArray, list, tuple)):
+            a = _xa(a)
+            return type(a)(a.shape, [f(exact(v)) for v in a.data]) if type(a) is XArray else XArray(a.shape, [f(exact(v)) for v in a.data])
+        return f(exact(a))
+
+    return g
+
+
+def _isfinite(v):
+    return True
+
+
+for _k, _v in {
+    "logical_not": _np_logical(None),
+    "logical_and": _np_logical(lambda x, y: x and y),
+    "logical_or": _np_logical(lambda x, y: x or y),
+    "logical_xor": _np_logical(lambda x, y: x != y),
+    "expand_dims": _np_expand_dims,
+    "squeeze": _np_squeeze,
+    "hstack": _np_hstack,
+    "column_stack": _np_column_stack,
+    "dstack": _np_dstack,
+    "take": _np_take,
+    "take_along_axis": _np_take_along_axis,
+    "union1d": _np_union1d,
+    "prod": _np_prod,
+    "tensordot": _np_tensordot,
+    "linspace": _np_linspace,
+    "atleast_1d": _np_atleast(1),
+    "atleast_2d": _np_atleast(2),
+    "atleast_3d": _np_atleast(3),
+    "append": _np_append,
+    "flip": _np_flip,
+    "nonzero": _np_nonzero,
+    "argwhere": _np_argwhere,
+    "full_like": _np_like(None),
+    "empty_like": _np_like(Fraction(0)),
+    "diagonal": _np_diagonal,
+    "triu": _np_tri(True),
+    "tril": _np_tri(False),
+    "ix_": _np_ix,
+    "unravel_index": _np_unravel_index,
+    "split": _np_split,
+    "array_split": _np_split,
+    "round": _np_round,
+    "around": _np_round,
+    "square": _np_elementwise(lambda v: v * v),
+    "absolute": _np_elementwise(lambda v: abs(v)),
+    "isnan": _np_elementwise(lambda v: False),
+    "isfinite": _np_elementwise(lambda v: True),
+    "copy": lambda a, **kw: _xa(a).copy(),
+    "true_divide": lambda a, b, **kw: _NP_FUNCS["divide"](a, b, **kw),
+    "power": lambda a, b, **kw: _xa(a) ** b if isinstance(a, (XArray, list, tuple)) else exact(a) ** b,
+    "mod": lambda a, b: _xa(a) % b if isinstance(a, (XArray, list, tuple)) else exact(a) % b,
+    "remainder": lambda a, b: _xa(a) % b if isinstance(a, (XArray, list, tuple)) else exact(a) % b,
+    "floor_divide": lambda a, b: _xa(a) // b if isinstance(a, (XArray, list, tuple)) else exact(a) // b,
+    "int_": int,
+    "float_": float,
+    "bool_": bool,
+    "intp": int,
+}.items():
+    _NP_FUNCS.setdefault(_k, _v)
+
+
+def _py_type(o):
+    if isinstance(o, XObj):
+        return o.cls
+    if isinstance(o, XArray):
+        return _NpAttr("ndarray")
+    if isinstance(o, Fraction):
+        return float if o.denominator != 1 else int
+    return type(o)
+
+
+_PY_BUILTINS.setdefault("type", _py_type)
+
+
+def _np_isclose(a, b, rtol=Fraction(1, 10**5), atol=Fraction(1, 10**8), equal_nan=False):
+    """numpy's |a - b| <= atol + rtol |b| on exact numbers"""
+    rtol, atol = exact(rtol), exact(atol)
+
+    def one(x, y):
+        x, y = exact(x), exact(y)
+        for v in (x, y):
+            if isinstance(v, (Poly, Rat)) and not (isinstance(v, Poly) and v.is_const()):
+                raise XArrayError("np.isclose of a symbolic entry")
+        x = x.const_value() if isinstance(x, Poly) else x
+        y = y.const_value() if isinstance(y, Poly) else y
+        return abs(x - y) <= atol + rtol * abs(y)
+
+    if isinstance(a, (XArray, list, tuple)) or isinstance(b, (XArray, list, tuple)):
+        A = _xa(a) if isinstance(a, (XArray, list, tuple)) else XArray((), [a]) if False else None
+        if A is None:
+            A = XArray.full(_xa(b).shape, a)
+        B = _xa(b) if isinstance(b, (XArray, list, tuple)) else XArray.full(A.shape, b)
+        return XArray._binop(A, B, one)
+    return one(a, b)
+
+
+def _np_allclose(a, b, **kw):
+    r = _np_isclose(a, b, **kw)
+    return all(bool(v) for v in r.data) if isinstance(r, XArray) else bool(r)
+
+
+_NP_FUNCS.setdefault("isclose", _np_isclose)
+_NP_FUNCS.setdefault("allclose", _np_allclose)
+
+
+def _np_meshgrid_n(xs, indexing="xy"):
+    """np.meshgrid for any number of 1-D inputs, 'xy' and 'ij' indexing"""
+    import itertools as _it
+
+    arrs = [XArray.from_nested(x).ravel() for x in xs]
+    if indexing not in ("xy", "ij"):
+        raise XRaise("ValueError", "Valid values for `indexing` are 'xy' and 'ij'.")
+    if len(arrs) == 2 and indexing == "xy":
+        return _np_meshgrid(arrs[0], arrs[1], "xy")
+    sizes = [a.size for a in arrs]
+    out = []
+    for k, a in enumerate(arrs):
+        out.append(XArray(tuple(sizes), [a.data[pos[k]] for pos in _it.product(*[range(n) for n in sizes])], a.dtype))
+    if indexing == "xy" and len(arrs) > 2:
+        out = [o.transpose(*([1, 0] + list(range(2, len(arrs))))) for o in out]
+    return out
+
+
+def _np_block(arrays):
+    """np.block of a (nested) list of blocks: innermost lists are joined along the last axis, the next level along the
+    second-to-last"""
+
+    def depth(x):
+        return 1 + depth(x[0]) if isinstance(x, list) else 0
+
+    def build(x, level, maxd):
+        if not isinstance(x, list):
+            a = _xa(x) if isinstance(x, (XArray, tuple)) else XArray((), [x]) if False else _xa([x]).reshape(*([1] * maxd)) if not isinstance(x, XArray) else x
+            while a.ndim < maxd:
+                a = a.reshape(*((1,) + a.shape))
+            return a
+        parts = [build(y, level + 1, maxd) for y in x]
+        return _NP_FUNCS["concatenate"](parts, axis=-(depth(x)))
+
+    d = depth(arrays)
+    nd = max(d, 1)
+
+    def leaves(x):
+        if isinstance(x, list):
+            for y in x:
+                yield from leaves(y)
+        else:
+            yield x
+
+    nd = max([nd] + [(_xa(l).ndim if isinstance(l, (XArray, list, tuple)) else 0) for l in leaves(arrays)])
+    return build(arrays, 0, nd)
+
+
+_NP_FUNCS.setdefault("block", _np_block)
+
+
+def _np_ndindex(*shape):
+    import itertools as _it
+
+    if len(shape) == 1 and isinstance(shape[0], (tuple, list)):
+        shape = tuple(shape[0])
+    return list(_it.product(*[range(int(exact(n))) for n in shape]))
+
+
+_NP_FUNCS.setdefault("ndindex", _np_ndindex)
+_NP_FUNCS.setdefault("ndenumerate", lambda a: [(pos, _xa(a)[pos]) for pos in _np_ndindex(*_xa(a).shape)])
